@@ -91,7 +91,7 @@ func (r *renderer) visitType(t *Type) {
 	case KPtr, KSlice:
 		r.visitType(t.Elem)
 		return
-	case KBasic:
+	case KBasic, KRaw:
 		return
 	}
 	if r.seenT[t] {
@@ -275,6 +275,8 @@ func (r *renderer) typeExpr(f *file, t *Type) string {
 		return "[]" + r.typeExpr(f, t.Elem)
 	case KBasic:
 		return "int"
+	case KRaw:
+		return t.Name
 	default:
 		return f.q(t.Pkg) + t.Name
 	}
@@ -289,6 +291,8 @@ func (r *renderer) descFunc(f *file, t *Type) string {
 		return r.descFunc(f, t.Elem)
 	case KBasic:
 		return fmt.Sprintf("func(e int) string { return \"#\" + %sItoa(e) }", f.vt())
+	case KRaw:
+		return fmt.Sprintf("func(e %s) string { return \"#0\" }", t.Name)
 	default:
 		return f.q(t.Pkg) + "Desc_" + t.Name
 	}
@@ -305,6 +309,8 @@ func (r *renderer) descExpr(f *file, t *Type, x string) string {
 		return r.descExpr(f, t.Elem, x)
 	case KBasic:
 		return fmt.Sprintf("(\"#\" + %sItoa(%s))", f.vt(), x)
+	case KRaw:
+		return "\"#0\""
 	default:
 		return fmt.Sprintf("%sDesc_%s(%s)", f.q(t.Pkg), t.Name, x)
 	}
@@ -319,6 +325,8 @@ func (r *renderer) mintExpr(f *file, t *Type, id string) string {
 		return fmt.Sprintf("%s%s(%s)", f.q(t.Pkg), t.Name, id)
 	case KBasic:
 		return fmt.Sprintf("int(%s)", id)
+	case KRaw:
+		return t.RawValue
 	case KIface:
 		return fmt.Sprintf("%s%s(&%s%sAuto{ID: %s})", f.q(t.Pkg), t.Name, f.q(t.Pkg), t.Name, id)
 	case KAgg:
